@@ -135,6 +135,8 @@ def _inplace(prog, func, concrete, _seen=None):
 def check(ctx, rep):
     prog = ctx.prog
     eff = Effects(prog, ctx.resolver)
+    rep.rule("R12e", "an entry described from the file system is only handed out with its stat result: populatefromvfs() lets a failing stat propagate "
+             "(the listing loop leaves that entry out)", floor=1)
     rep.rule("R12d", "a loop over the handler's entry collection does not change that collection (directly or through a hook): no entry is skipped", floor=2)
     rep.rule("R12a", "calls that may raise FileNotFound/OSError inside a per-entry loop are caught inside the loop body and the loop continues", floor=3)
     rep.rule("R12c", "every open() for reading on a name from the content tree is preceded by regular-file evidence (isfile() of the path, or S_ISREG of the stat result for the handler's own selector)", floor=6)
@@ -237,6 +239,52 @@ def check(ctx, rep):
                             f"`{hits[0][1]}` changes the list while it is being walked: the entry after the one handled there is skipped "
                             "(a listing loses a servable entry next to an unservable one)" if hits else "",
                             key=f"R12d|{C.name}|{m.qualname}|{coll}")
+
+    # ------------------------------------------------------------------ R12e
+    ge = ctx.cls("gopherentry.GopherEntry")
+    pv = prog.resolve_method(ge, "populatefromvfs") if ge else None
+    if pv is not None:
+        def is_stat(n):
+            return isinstance(n, ast.Call) and isinstance(n.func, ast.Attribute) and n.func.attr == "stat" \
+                and not (dotted(n.func.value) or "").startswith(("os.path", "self.config"))
+
+        swallowed = []
+        n_r = 0
+
+        def scan(fn, nonnull, depth):
+            """stat calls of fn (parameters in `nonnull` are known not to be None) and of the self-methods it calls"""
+            nonlocal n_r
+            for n in ast.walk(fn.node):
+                if is_stat(n):
+                    # unreachable when it sits under `if <param> is None` / `if not <param>` for a parameter that was passed a value
+                    dead = False
+                    for anc, field in enclosing(fn.node, n):
+                        if isinstance(anc, ast.If) and field == "body":
+                            t = norm(anc.test)
+                            if any(t in (f"{p_} is None", f"not {p_}", f"{p_} == None") for p_ in nonnull):
+                                dead = True
+                    if dead:
+                        continue
+                    n_r += 1
+                    for tr in enclosing_tries(fn.node, n):
+                        for h in tr.handlers:
+                            if catches(h, "OSError") and not any(isinstance(x, ast.Raise) for x in ast.walk(h)):
+                                swallowed.append(f"{fn.qualname}: {norm(n)[:40]}")
+                if depth < 2 and isinstance(n, ast.Call) and isinstance(n.func, ast.Attribute) and dotted(n.func.value) == "self":
+                    callee = prog.resolve_method(ge, n.func.attr)
+                    if callee is not None and callee is not fn:
+                        params = callee.params[1:]
+                        passed = dict(zip(params, n.args))
+                        passed.update({k.arg: k.value for k in n.keywords if k.arg})
+                        nn = {p_ for p_, a_ in passed.items() if is_stat(a_) or isinstance(a_, (ast.Tuple, ast.List, ast.Dict, ast.JoinedStr))
+                              or (isinstance(a_, ast.Constant) and a_.value is not None)}
+                        scan(callee, nn, depth + 1)
+
+        scan(pv, set(), 0)
+        rep.add("R12e", f"{pv.qualname}: an entry whose stat fails is not handed out", not swallowed and n_r > 0, ctx.where(pv),
+                (f"when `{swallowed[0]}` fails the method returns normally: the per-entry handling of the listing never sees the failure, a blank entry "
+                 "(no type, no name) goes into the listing and the cache, and the Gopher renderer fails on it" if swallowed else
+                 "the method never stats the object it describes"), key=f"R12e|{pv.qualname}")
 
     # ------------------------------------------------------------------ R12b
     gh = ctx.func("handlers.HandlerMultiplexer.getHandler")
